@@ -237,8 +237,8 @@ PROPS["C11"] = {
                    "over the same path must arrive intact (PRF prefix/equality) and completely within 40 simulated minutes; a handshake error is an allowed outcome."),
     "level_note": "The path model transforms whole messages (names, sections, sizes); it does not model resolver caching or recursion delays. Handshake failure on a hostile path is never a violation.",
     "tiers": {
-        "quick": {"runs": 6000, "chunk": 150, "shrink_s": 40, "stall_s": 300},
-        "thorough": {"runs": 100000, "chunk": 250, "shrink_s": 120, "stall_s": 300},
+        "quick": {"runs": 30000, "chunk": 150, "shrink_s": 40, "stall_s": 300},
+        "thorough": {"runs": 600000, "chunk": 250, "shrink_s": 120, "stall_s": 300},
     },
 }
 
